@@ -169,6 +169,10 @@ func (e *Exec) nondet(name string, kind string, s Sort) *Term {
 
 func argStr(e *Exec, v Value, what string) string {
 	s, ok := v.(StrV)
+	if ok && !s.IsConcrete() && s.opq == nil && symByteCount(s) <= 3 {
+		// a few symbolic bytes: enumerate their feasible values (one path each)
+		s = e.concretizeStr(s)
+	}
 	if !ok || !s.IsConcrete() {
 		e.unsupported(what + ": string argument must be concrete")
 	}
